@@ -473,3 +473,12 @@ if _os.path.isdir(_SEED_ROOT):
         if _os.path.exists(_mf):
             _m = _json.load(open(_mf))
             VARIANTS.append((f"{_m['property']}-seed-{_sid}", _m["property"], "PATCH", f"seeded/{_sid}/patch.diff", None, "VIOLATION property=" + _m["property"]))
+
+TZI = "src/pendulum/tz/__init__.py"
+VARIANTS += [
+    ("C01-cache-key-abs", "C01", TZI, "    if offset in _tz_cache:\n        return _tz_cache[offset]", "    if abs(offset) in _tz_cache:\n        return _tz_cache[abs(offset)]", "ZONE.cache"),
+    ("C01-cache-store-key", "C01", TZI, "    _tz_cache[offset] = tz\n", "    _tz_cache[abs(offset)] = tz\n", "ZONE.cache"),
+    ("C01-hours-minutes", "C01", INIT, "        obj = int(obj * 60 * 60)", "        obj = int(obj * 60)", "ZONE.resolve"),
+    ("C01-utc-case", "C01", INIT, '    if name.lower() == "utc":\n        return UTC', '    if name == "utc":\n        return UTC', "ZONE.resolve"),
+    ("C01-get-offset-seconds", "C01", DT, "        return int(utcoffset.total_seconds())", "        return utcoffset.seconds", "ACCESSOR"),
+]
